@@ -3,7 +3,7 @@
    case  = max_inb(0 = unlimited, k+1 = Some k)  ndial  max_size  n  op_1 .. op_n
    trace = 1  step_1 .. step_n        (or [0] when the case does not parse)
    step  = target(0 = none, t+1)  nevents  event*  dump
-   event = 1 rid | 2 rid len tag | 3 rid code | 4 irid peer len tag | 5 chan len tag   (sorted)
+   event = 1 rid | 2 rid len tag | 3 rid code | 4 irid peer len tag | 5 chan len tag | 7 irid ok   (sorted)
    dump  = peers (p, active ids, inbound ids)*  dials (p, ids)*  pending_outbound (sid p rid)*
            cancel ids  #request futures  #inbound readers  #responders *)
 From Coq Require Import List NArith Bool.
@@ -33,7 +33,7 @@ Definition p_ev : parser ev :=
   | 12 => let* d := pN in pret (EAdvance d)
   | 13 => let* p := pN in let* g := pN in pret (EInOpen p g)
   | 14 => let* k := pN in let* l := pN in let* t := pN in pret (EInReq k l t)
-  | 15 => let* k := pN in let* l := pN in let* t := pN in pret (EURespond k l t)
+  | 15 => let* k := pN in let* l := pN in let* t := pN in let* fb := pBool in pret (EURespond k l t fb)
   | 16 => let* k := pN in pret (EUReject k)
   | 17 => let* p := pN in pret (EBreakConn p)
   | _ => pfail
@@ -63,6 +63,8 @@ Definition out_key (o : out) : N :=
   | OFail r _ => 3 * 1099511627776 + r
   | OReq r _ _ _ => 4 * 1099511627776 + r
   | OWire c _ _ => 5 * 1099511627776 + c
+  | OBind c _ => 6 * 1099511627776 + c
+  | OFeed r _ => 7 * 1099511627776 + r
   end.
 Definition enc_out (o : out) : list N :=
   match o with
@@ -71,7 +73,10 @@ Definition enc_out (o : out) : list N :=
   | OFail r c => [3; r; c]
   | OReq r p l t => [4; r; p; l; canon_tag l t]
   | OWire c l t => [5; c; l; canon_tag l t]
+  | OBind _ _ => []
+  | OFeed r ok => [7; r; b2n ok]
   end.
+Definition printed (o : out) : bool := match o with OBind _ _ => false | _ => true end.
 
 Fixpoint dedup (l : list N) : list N :=
   match l with
@@ -95,7 +100,7 @@ Fixpoint run_trace (c : cfg) (st : pst * env) (l : list ev) : list N :=
   match l with
   | [] => []
   | e :: t => let '(st1, o, tg) := step c st e in
-              enc_opt tg :: enc_list enc_out (sort_by out_key o) ++ dump (fst st1) ++ run_trace c st1 t
+              enc_opt tg :: enc_list enc_out (sort_by out_key (filter printed o)) ++ dump (fst st1) ++ run_trace c st1 t
   end.
 
 Definition run_case (l : list N) : list N :=
@@ -120,6 +125,7 @@ Definition p_out : parser out :=
   | 3 => let* r := pN in let* c := pN in pret (OFail r c)
   | 4 => let* r := pN in let* p := pN in let* l := pN in let* t := pN in pret (OReq r p l t)
   | 5 => let* c := pN in let* l := pN in let* t := pN in pret (OWire c l t)
+  | 7 => let* r := pN in let* ok := pBool in pret (OFeed r ok)
   | _ => pfail
   end.
 
@@ -169,10 +175,18 @@ Fixpoint steps_ok (mi : option N) (evs : list ev) (tr : list ostep)
   | e :: evs', s :: tr' =>
     let o := o_outs s in
     let sp' := sp ++ sent_payloads e o in
-    (* ledger: a request that is active at a peer has a substream being opened or a future in
-       flight, so "nothing outstanding" implies "nothing owed" (this is the premise under which
-       C13_exactly_one_settled applies to the quiescent runs checked below) *)
+    (* ledger (Proofs.inv_cov, proved for the model; re-checked here on the real bookkeeping): a
+       request that is active at a peer has a substream being opened or a future in flight, so
+       "nothing outstanding" implies "nothing owed" *)
     (if (d_npouts (o_dump s) =? 0) && (d_nfuts (o_dump s) =? 0) then d_nactive (o_dump s) =? 0 else true) &&
+    (* feedback: () is sent only when the response frame went out in the same step, and only for
+       a send_response_with_feedback *)
+    forallb (fun x => match x with
+                      | OFeed _ true => existsb (fun y => match y with OWire _ _ _ => true | _ => false end) o
+                      | _ => true end) o &&
+    (if existsb (fun x => match x with OFeed _ _ => true | _ => false end) o
+     then match e with EURespond _ _ _ _ | EUnblock _ | EBreakW _ | EAdvance _ => true | _ => false end
+     else true) &&
     (* inbound bound *)
     match mi with Some m => d_nrd (o_dump s) + d_nrs (o_dump s) <=? m | None => true end &&
     (* every terminal event answers an id that was handed out *)
